@@ -51,6 +51,12 @@ pub mod fuel {
             return false;
         }
         if left != u64::MAX {
+            // A budgeted run also stops when its backtrack store / state stack gets this long:
+            // a run that needs more is reported like one that needs more steps.
+            if stack_len > 4_000_000 {
+                EXHAUSTED.with(|f| f.set(true));
+                return false;
+            }
             FUEL.with(|f| f.set(left - 1));
         }
         STEPS.with(|f| f.set(f.get() + 1));
